@@ -3,6 +3,7 @@ package sim
 import (
 	"fmt"
 	"strings"
+	"time"
 )
 
 // Oracles C05 (attempts), C06 (bypass / pre-check gating), C07 (continuous and
@@ -61,8 +62,10 @@ func attemptMatches(in *Inv, a AttSnap, timeoutNs int64) string {
 		if a.Resp != "" {
 			return "timed-out invocation recorded with a response"
 		}
-		if a.End-a.Start != timeoutNs {
-			return "timed-out attempt does not last exactly the action timeout"
+		// the statement asks for start<=end only; an attempt recorded as a timeout
+		// cannot, however, have lasted less than the timeout (clock resolution up to 1 s allowed)
+		if a.End-a.Start < timeoutNs-int64(time.Second) {
+			return "timed-out attempt recorded shorter than the action timeout"
 		}
 	default:
 		if a.Err == nil {
@@ -86,9 +89,12 @@ func attemptMatches(in *Inv, a AttSnap, timeoutNs int64) string {
 	if a.Start > a.End {
 		return "attempt start > end"
 	}
-	if a.Start > in.EnterT+epochUnixNs || a.End < in.EndT+epochUnixNs {
-		// the attempt interval must enclose the invocation (start before the plugin
-		// was entered, end not before it ended)
+	// The attempt's times must be those of this invocation. The statement fixes no
+	// clock resolution, so a second of slack is allowed on either side (timestamps
+	// truncated to milliseconds or seconds are fine); times of another invocation or
+	// an End taken long before the plugin returned are not.
+	const tsSlack = int64(time.Second)
+	if a.Start > in.EnterT+epochUnixNs+tsSlack || a.End < in.EndT+epochUnixNs-tsSlack {
 		return "attempt times do not enclose the invocation"
 	}
 	return ""
